@@ -59,7 +59,7 @@ func TestVerifC13(t *testing.T) {
 		c13GenerationsSequential(m)
 		c13GenerationsConcurrent(m)
 		c13TrackerConcurrent(m)
-		m.Require("c_conc_rounds", "c_conc_adopted_alive", "c_conc_closed_during_handover", "c_conc_tracked_during_handover", "c_seq_rounds", "c_seq_adoptions", "c_seq_tracks", "c_seq_closed", "c_trk_holds", "c_trk_transfers", "c_trk_last_owner_releases")
+		m.Require("c_conc_rounds", "c_conc_adopted_alive", "c_conc_closed_during_handover", "c_conc_tracked_during_handover", "c_seq_rounds", "c_seq_adoptions", "c_seq_tracks", "c_seq_closed", "c_seq_closes_with_failing_kernel_delete", "c_trk_holds", "c_trk_transfers", "c_trk_last_owner_releases")
 	}
 	m.Set("goroutines_at_end", runtime.NumGoroutine())
 	if os.Getenv("VERIF_C13_DUMP") != "" {
